@@ -360,6 +360,11 @@ func buildAssertionEl(a *AsrtSpec, t0 time.Time, form int, method string) *etree
 
 // encryptAssertionEl wraps el into saml:EncryptedAssertion for the holder of kp (RSA-OAEP + AES128-CBC, as the library IdP does).
 func encryptAssertionEl(el *etree.Element, kp KeyPair) *etree.Element {
+	return encryptElAs(el, kp, "saml:EncryptedAssertion")
+}
+
+// encryptElAs wraps el into the given Encrypted* element for the holder of kp.
+func encryptElAs(el *etree.Element, kp KeyPair, wrapper string) *etree.Element {
 	doc := etree.NewDocument()
 	doc.SetRoot(el.Copy())
 	buf, err := doc.WriteToBytes()
@@ -374,7 +379,7 @@ func encryptAssertionEl(el *etree.Element, kp KeyPair) *etree.Element {
 		panic(fmt.Sprintf("harness: encrypt: %v", err))
 	}
 	ed.CreateAttr("Type", "http://www.w3.org/2001/04/xmlenc#Element")
-	ea := etree.NewElement("saml:EncryptedAssertion")
+	ea := etree.NewElement(wrapper)
 	ea.AddChild(ed)
 	return ea
 }
